@@ -80,6 +80,8 @@ def kernel_obligations(ix, R, pfx, site, params, integrand, what):
             lo_ok = loop_matches(fl, lps[0], 'startK', 'endK', env2)
             wn_ok = loop_matches(fl, lps[1], '0', 'ngrid', env2)
             why = []
+            if st.guards:
+                why.append('accumulation is conditional on %s' % ' and '.join(g.text() for g in st.guards))
             if not tgt_ok:
                 why.append('target is %s' % fmt(fl, st.target))
             if not val_ok:
@@ -421,6 +423,9 @@ def chord_obligations(ix, R, site):
             if eop != op or not fl.tab.equal(e.target, spec(fl, tg, b)) or \
                     not fl.tab.equal(e.value, spec(fl, val, b)):
                 why.append('%s' % unparse(e.node))
+    for e in stores + [ap, k_alloc]:
+        if e.guards:
+            why.append('%s is conditional on %s' % (unparse(e.node)[:40], ' and '.join(g.text() for g in e.guards)))
     R.check('6.geom', 'ALG', site,
             'shell chords: outer-boundary half-chord minus inner-boundary half-chord, '
             'all with the same tangent radius', not why, key='; '.join(why),
